@@ -52,6 +52,16 @@ CHECKS = {
          "with a single-frame save/reload of that frame.",
     note="MOL2 cuts between optional sections and PDB fragments without ATOM records are treated as valid shorter files; FCHK trajectories not frame-sequential (see C07/C16)",
     technique="TLA+ protocol models (ApiLoad.tla, ApiDump.tla) checked with TLC + trace validation of real load_many/dump_many executions with truncation and corruption"),
+ "C07": dict(
+    category="model_checking", design_ref="DESIGN.md section 6 C07",
+    text="TLC checks NoLeakedFd, FormatErrorTouchesNothing, OutcomeClass, PrefixInOrder and termination (<>done under weak "
+         "fairness) of the ApiLoad protocol; thousands of loads of corpus files of all 25 modules (truncated at line boundaries "
+         "and byte offsets, mutated, empty, binary, foreign content; load_one and load_many; explicit and name-derived format) "
+         "run under a wall-clock alarm and an address-space limit through the tracing open shim, and every trace (open, yields "
+         "with a shape-consistency verdict, close, outcome class, message names file, line number <= lines read, descriptor "
+         "closed) is validated against the protocol by TLC.",
+    note="frame kinds of arbitrary content are inferred from observed yields; shape consistency is computed from the data model only; termination is a 40 s alarm per load",
+    technique="TLA+ protocol model (ApiLoad.tla) checked with TLC + trace validation of real load_one/load_many executions on truncated/mutated corpus files"),
 }
 NOT_YET = "check not built yet in this round (planned, see DESIGN.md section 6)"
 
